@@ -28,7 +28,8 @@ enum { KEEP_IF_SAME = 1,   // the command leaves an output whose content would n
        HALVE = 2,          // the command's result depends on its inputs only through content/2 (so that some edits do not change it)
        ALWAYS_FAILS = 4,
        EXPECT_CYCLE = 8,
-       NONCANONICAL_DEPFILE = 16 };  // the command spells the extra files it read as ./name in its depfile (compilers do, for -I. includes)  // by the manifest text this statement lies on a dependency cycle (expectation independent of ninja's own parse)
+       NONCANONICAL_DEPFILE = 16,
+       REGEN_MANIFEST = 32 };       // the statement regenerates build.ninja from configure.in (each edit of configure.in selects the next manifest variant)  // the command spells the extra files it read as ./name in its depfile (compilers do, for -I. includes)  // by the manifest text this statement lies on a dependency cycle (expectation independent of ninja's own parse)
 struct CmdSpec {
   const char* out;            // first output of the statement this entry describes
   const char* extra_reads;    // files the command reads beyond its declared explicit/implicit inputs; it reports them (depfile / deps / dyndep)
@@ -108,13 +109,15 @@ static const CmdSpec* spec_for(const std::string& out0, int* idx = NULL) {
   return NULL;
 }
 static int edge_ordinal(const Edge* e) { return (int)e->id_; }
-static long mix(int ordinal, int k, const std::vector<long>& in, int flags) {
-  long c = 1000 + 97 * ordinal + k;
+// a command's result also depends on its command line and response-file content (not for generator rules: ninja does not re-run those on a changed line)
+static long cmd_hash(const std::string& c) { long h = 7; for (size_t i = 0; i < c.size(); i++) h = (h * 131 + (unsigned char)c[i]) % 1000003L; return h; }
+static long mix(int ordinal, int k, const std::vector<long>& in, int flags, long cmdh = 0) {
+  long c = 1000 + 97 * ordinal + k + cmdh * 7;
   for (size_t i = 0; i < in.size(); i++) c = c * 31 + ((flags & HALVE) ? in[i] / 2 : in[i]) % 100003;
   return c % 1000000007L;
 }
 // declared-input view of the current manifest used by the reference ("what would a from-scratch build produce")
-struct RefEdge { std::vector<std::string> outs, reads, order_only, validations; int ordinal; int flags; bool phony; bool generator; size_t ndeclared; std::string command, plain_depfile; };
+struct RefEdge { std::vector<std::string> outs, reads, order_only, validations; int ordinal; int flags; bool phony; bool generator; size_t ndeclared; std::string command, plain_depfile; long cmdh; };
 static std::vector<RefEdge> g_ref;
 static void build_reference(State* st) {
   g_ref.clear();
@@ -126,7 +129,7 @@ static void build_reference(State* st) {
     for (size_t k = 0; k < n; k++) r.reads.push_back(e->inputs_[k]->path());
     for (size_t k = n; k < e->inputs_.size(); k++) r.order_only.push_back(e->inputs_[k]->path());
     for (size_t k = 0; k < e->validations_.size(); k++) r.validations.push_back(e->validations_[k]->path());
-    r.ndeclared = r.reads.size(); r.generator = e->GetBindingBool("generator"); r.command = e->EvaluateCommand(true);
+    r.ndeclared = r.reads.size(); r.generator = e->GetBindingBool("generator"); r.command = e->EvaluateCommand(true); r.cmdh = r.generator ? 0 : cmd_hash(r.command);
     if (e->GetBinding("deps").empty()) r.plain_depfile = e->GetUnescapedDepfile();
     const CmdSpec* s = spec_for(r.outs[0]); r.flags = s ? s->flags : 0;
     if (s) { std::vector<std::string> x = split_words(s->extra_reads); for (size_t q = 0; q < x.size(); q++) { bool have = false; for (size_t z = 0; z < r.reads.size(); z++) have = have || r.reads[z] == x[q]; if (!have) r.reads.push_back(x[q]); }
@@ -167,7 +170,7 @@ static long clean_content(const std::string& f, bool* ok, int depth = 0) {
   const CmdSpec* s = spec_for(e->outs[0]);
   if (s && s->dyndep_text && k == 0) { std::string t = s->dyndep_text; return (long)t.size() * 131 + (t.empty() ? 0 : (unsigned char)t[t.size() / 2]); }
   std::vector<long> in; for (size_t i = 0; i < e->reads.size(); i++) in.push_back(clean_content(e->reads[i], ok, depth + 1));
-  return mix(e->ordinal, k, in, e->flags);
+  return mix(e->ordinal, k, in, e->flags, e->cmdh);
 }
 // everything a set of targets transitively depends on (all input kinds, extra reads, validations), outputs of non-phony statements only
 static void closure(const std::string& f, std::vector<std::string>* out, int depth = 0) {
@@ -184,7 +187,7 @@ static void closure(const std::string& f, std::vector<std::string>* out, int dep
 struct LastRun { bool ran; std::vector<long> snap; std::string command; LastRun() : ran(false) {} };
 static LastRun g_last[16];
 // ------------------------------------------------------------------------------------------------ the command runner
-struct Running { Edge* edge; std::vector<long> snap; bool missing_input; int flags; bool phantom; long stdout_len_at_start; };
+struct Running { Edge* edge; std::vector<long> snap; bool missing_input; int flags; bool phantom; long stdout_len_at_start; long cmdh; };
 struct TokenPool;
 struct RunnerOpts { int parallelism; bool may_fail; bool may_interrupt; bool check_inputs_fresh; bool failed_touch; bool start_may_fail; bool check_idle; bool sym_exit_code; bool prints_output; TokenPool* tokens; Builder* builder; int failures_allowed;
   RunnerOpts() : parallelism(1), may_fail(false), may_interrupt(false), check_inputs_fresh(false), failed_touch(false), start_may_fail(false), check_idle(false), sym_exit_code(false), prints_output(false), tokens(NULL), builder(NULL), failures_allowed(1) {} };
@@ -203,6 +206,10 @@ struct TokenPool : public Jobserver::Client {
   }
   int outstanding() const { return acquired - released; }
 };
+// where a runner created behind NinjaMain (CommandRunner::factory) leaves what it observed: one invocation may create several (manifest regeneration)
+struct RunnerSink { std::vector<int> started, finished_ok, failed, exit_codes; std::vector<std::string> events; int max_running; bool interrupted; int runners; RunnerSink() : max_running(0), interrupted(false), runners(0) {} };
+static RunnerSink* g_sink;
+static int regen_variant();
 struct SymRunner : public CommandRunner {
   RunnerOpts opt; std::vector<Running> active;
   std::vector<int> started, finished_ok, failed;            // edge ordinals, in order
@@ -210,6 +217,13 @@ struct SymRunner : public CommandRunner {
   std::vector<int> exit_codes;                              // of the failed commands
   int max_running; bool interrupted; int failures_seen;
   SymRunner() : max_running(0), interrupted(false), failures_seen(0) {}
+  ~SymRunner() override {
+    if (!g_sink) return;
+    g_sink->runners++; if (g_sink->runners > 1) g_sink->events.push_back("reload");
+    g_sink->started.insert(g_sink->started.end(), started.begin(), started.end()); g_sink->finished_ok.insert(g_sink->finished_ok.end(), finished_ok.begin(), finished_ok.end());
+    g_sink->failed.insert(g_sink->failed.end(), failed.begin(), failed.end()); g_sink->exit_codes.insert(g_sink->exit_codes.end(), exit_codes.begin(), exit_codes.end());
+    g_sink->events.insert(g_sink->events.end(), events.begin(), events.end()); if (max_running > g_sink->max_running) g_sink->max_running = max_running; g_sink->interrupted = g_sink->interrupted || interrupted;
+  }
   size_t CanRunMore() const override {
     if (opt.tokens) return 1000;       // as RealCommandRunner: with a jobserver the tokens acquired in Plan::FindWork limit the jobs
     return (size_t)opt.parallelism > active.size() ? opt.parallelism - active.size() : 0; }
@@ -218,6 +232,7 @@ struct SymRunner : public CommandRunner {
     if (verif_vfs_frozen()) g_dead = true;
     Running r; r.edge = e; r.missing_input = false; r.phantom = g_dead;     // a dead ninja starts nothing: what it "starts" has no effect
     const CmdSpec* s = spec_for(e->outputs_[0]->path()); r.flags = s ? s->flags : 0;
+    r.cmdh = e->GetBindingBool("generator") ? 0 : cmd_hash(e->EvaluateCommand(true));
     if (opt.start_may_fail && verif_bool("spawn_fails")) { events.push_back("spawnfail " + e->outputs_[0]->path()); return false; }
     VERIF_ASSERT(!in(started, edge_ordinal(e)), "C06: each build statement's command runs at most once per invocation");
     if (opt.tokens) VERIF_ASSERT((int)active.size() < opt.tokens->outstanding(), "C06: never more commands running than jobserver tokens held");
@@ -289,11 +304,12 @@ struct SymRunner : public CommandRunner {
         if (!((r.flags & KEEP_IF_SAME) && f && f->exists && f->is_text && f->text == text)) g_tree->write_text(p, text);
         continue;
       }
-      long c = mix(ord, (int)k, r.snap, r.flags);
+      long c = mix(ord, (int)k, r.snap, r.flags, r.cmdh);
       VFile* f = g_tree->find(p);
       if ((r.flags & KEEP_IF_SAME) && f && f->exists && !f->is_text && f->content == c) continue;    // identical output left untouched
       g_tree->write(p, c);
     }
+    if (r.flags & REGEN_MANIFEST) g_manifest_variant = regen_variant();       // the generator has rewritten build.ninja from configure.in
     std::vector<std::string> reads = read_set(e);
     std::string dep = e->GetUnescapedDepfile();
     if (!dep.empty()) { std::string t = e->outputs_[0]->path() + ":"; size_t nd = reads.size(); for (size_t z = 0; z < g_ref.size(); z++) if (g_ref[z].ordinal == ord) nd = g_ref[z].ndeclared;
@@ -343,7 +359,13 @@ struct InvocationResult {
 };
 static bool has_id(const std::vector<int>& v, int x) { for (size_t i = 0; i < v.size(); i++) if (v[i] == x) return true; return false; }
 
+#ifdef VIA_MAIN
+static InvocationResult invoke_main(const InvocationOpts& o);      // mainkit.h: the same invocation through ninja.cc's real_main
+static InvocationResult invoke(const InvocationOpts& o) { return invoke_main(o); }
+static InvocationResult invoke_direct(const InvocationOpts& o) {
+#else
 static InvocationResult invoke(const InvocationOpts& o) {
+#endif
   InvocationResult res;
   // every ninja invocation is a new process: the process-wide pool objects start out empty
   State::kDefaultPool.current_use_ = 0; State::kDefaultPool.delayed_.clear();
@@ -400,11 +422,20 @@ static InvocationResult invoke(const InvocationOpts& o) {
 }
 
 // ------------------------------------------------------------------------------------------------ scenario set-up and the oracles shared by several properties
+static bool scenario_regenerates() { for (int i = 0; i < 10 && g_sc->cmds[i].out; i++) if (g_sc->cmds[i].flags & REGEN_MANIFEST) return true; return false; }
+// the manifest the generator writes: every edit of configure.in selects the next variant
+static int regen_variant() {
+  int nvar = 1; while (nvar < 3 && g_sc->manifest[nvar]) nvar++;
+  std::vector<std::string> src = split_words(g_sc->sources); VFile* f = g_tree->find("configure.in"); if (!f || !f->exists) return 0;
+  long base = 0; for (size_t i = 0; i < src.size(); i++) if (src[i] == "configure.in") base = 100 + 10 * (long)i;
+  return (int)((f->content - base) % nvar);
+}
 static void init_tree(const Scenario* sc) {
   for (int i = 0; i < 16; i++) g_last[i] = LastRun();
   g_sc = sc; g_tree = new Tree; g_manifest_variant = 0; g_mkdir_may_fail = false; g_dead = false;
   std::vector<std::string> src = split_words(sc->sources);
   for (size_t i = 0; i < src.size(); i++) { VFile f; f.name = src[i]; f.exists = true; f.mtime = 1; f.content = 100 + 10 * (long)i; f.is_text = false; g_tree->files.push_back(f); }
+  if (scenario_regenerates()) { VFile f; f.name = "build.ninja"; f.exists = true; f.mtime = 1; f.content = 1; f.is_text = false; g_tree->files.push_back(f); }
 }
 static std::vector<std::string> symbolic_targets(const Scenario* sc, const char* tag) {
   std::vector<std::string> menu = split_words(sc->targets), t;
@@ -442,7 +473,7 @@ struct MinRef {
     const CmdSpec* s = spec_for(p->outs[0]);
     if (s && s->dyndep_text && k == 0) { std::string t = s->dyndep_text; return (long)t.size() * 131 + (t.empty() ? 0 : (unsigned char)t[t.size() / 2]); }
     std::vector<long> in; for (size_t i = 0; i < p->reads.size(); i++) in.push_back(val(p->reads[i]));
-    return mix(p->ordinal, k, in, p->flags);
+    return mix(p->ordinal, k, in, p->flags, p->cmdh);
   }
   bool runs(int i) {
     if (state[i] >= 2) return state[i] == 3;
